@@ -87,19 +87,33 @@ def build_conn(c, twin=False):
     if has:
         kw["delay_init"] = lambda x: t64(c["D"]).reshape(x.shape)
     k = c["conn"]
+    # the twin is built DIRECTLY with the final configuration; the delayed connection may be built with
+    # another step time / maximum delay and reconfigured through the public setters afterwards
+    dt0 = c["dt"] if twin else c.get("ctor_dt", c["dt"])
     if k == "dense":
-        conn = LinearDense(tuple(c["inshape"]), tuple(c["outshape"]), c["dt"], **kw)
+        conn = LinearDense(tuple(c["inshape"]), tuple(c["outshape"]), dt0, **kw)
     elif k == "direct":
-        conn = LinearDirect(tuple(c["inshape"]), c["dt"], **kw)
+        conn = LinearDirect(tuple(c["inshape"]), dt0, **kw)
     elif k == "lateral":
-        conn = LinearLateral(tuple(c["inshape"]), c["dt"], **kw)
+        conn = LinearLateral(tuple(c["inshape"]), dt0, **kw)
     else:
         g = c["geom"]
-        conn = Conv2D(g["H"], g["W"], g["C"], g["F"], c["dt"], tuple(g["kernel"]), stride=tuple(g["stride"]),
+        conn = Conv2D(g["H"], g["W"], g["C"], g["F"], dt0, tuple(g["kernel"]), stride=tuple(g["stride"]),
                       padding=tuple(g["padding"]), dilation=tuple(g["dilation"]), **kw)
+    reconf = False
+    if dt0 != c["dt"]:
+        # the step time is ASSIGNED after construction (Connection.dt or Synapse.dt)
+        if c.get("dt_via", "connection") == "connection":
+            conn.dt = c["dt"]
+        else:
+            conn.synapse.dt = c["dt"]
+        reconf = True
     if has and c["ctor_maxdelay"] != c["maxdelay"]:
         # the supported maximum is changed after construction, through the synapse's setter
         conn.synapse.delay = c["maxdelay"]
+        reconf = True
+    if reconf:
+        conn.clear()
     return conn
 
 
@@ -414,7 +428,7 @@ def make_case(rng, conn, syn, dt, K, kind, T, batch=None, over_none=False, tol=0
     c["ctor_maxdelay"] = c["maxdelay"]
     if setter and c["hasDelay"]:
         c["ctor_maxdelay"] = float(rng.choice([0.0, 1.0, 2.0, 5.0, maxk + 1]) * dt)
-    c["cmp_tol"] = 1e-9 if dt in (1.0, 0.5, 0.25, 2.0) else 1e-6
+    c["cmp_tol"] = 1e-9 if float(dt * 64).is_integer() else 1e-6       # dyadic step times are exact
     # geometry
     if conn == "dense":
         c["inshape"] = rng.choice([[2], [3], [2, 2]])
@@ -459,6 +473,48 @@ def make_case(rng, conn, syn, dt, K, kind, T, batch=None, over_none=False, tol=0
     return c
 
 
+def reconf_cases(rng, T, reps=1):
+    """the connection is constructed with one (dt, max delay) and RECONFIGURED by assignment to the final one — assignments that keep
+    the record size and assignments that change it — then cleared and run; expectation = twin built directly with the final values"""
+    cases = []
+    i = 0
+    for _ in range(reps):
+        for conn in CONNS:
+            for syn in SYN:
+                for variant in ("dt-same-size-7/8", "dt-same-size-1.3", "dt-same-size-3/4", "dt-resize", "delay-same-size", "dt-and-delay"):
+                    base = [1.0, 2.0, 0.5][i % 3]
+                    i += 1
+                    kind = "heterogeneous" if i % 3 else "homogeneous"
+                    if variant == "dt-same-size-7/8":        # ceil(3.5) = 4 = ceil(3.5 / 0.875)
+                        c = make_case(rng, conn, syn, 0.875 * base, 4, kind, T)
+                        c["ctor_dt"] = base
+                    elif variant == "dt-same-size-1.3":      # 1.0 -> 1.3 with max delay 4.0: five slots both times
+                        c = make_case(rng, conn, syn, 1.3, 3, kind, T)
+                        c["ctor_dt"], c["maxdelay"], c["ctor_maxdelay"] = 1.0, 4.0, 4.0
+                    elif variant == "dt-same-size-3/4":      # ceil(2.25) = 3 = ceil(2.25 / 0.75)
+                        c = make_case(rng, conn, syn, 0.75 * base, 3, kind, T)
+                        c["ctor_dt"] = base
+                    elif variant == "dt-resize":
+                        c = make_case(rng, conn, syn, base, 3, kind, T)
+                        c["ctor_dt"] = base * rng.choice([2.0, 0.5, 4.0])
+                    elif variant == "delay-same-size":       # 2.5 dt <-> 3 dt: four slots both times
+                        c = make_case(rng, conn, syn, base, 3, kind, T)
+                        c["ctor_maxdelay"] = 2.5 * base
+                        if i % 2:
+                            c["ctor_maxdelay"], c["maxdelay"] = 3.0 * base, 2.5 * base
+                            c["D"] = [min(d, 2.0 * base) for d in c["D"]]
+                    else:
+                        c = make_case(rng, conn, syn, 0.875 * base, 4, kind, T)
+                        c["ctor_dt"] = base
+                        c["ctor_maxdelay"] = rng.choice([1.0, 2.0, 6.0]) * base
+                    if not any(c["D"]):
+                        c["D"][-1] = c["dt"]                 # at least one non-zero delay
+                    c["dt_via"] = ["connection", "synapse"][i % 2]
+                    c["reconf"] = variant
+                    cases.append(c)
+    return cases
+
+
 def gen_cases(rng, thorough):
     cases = []
     T = 8 if not thorough else 14
@@ -481,6 +537,8 @@ def gen_cases(rng, thorough):
         for syn in SYN:
             for kind in ("heterogeneous", "homogeneous") if not thorough else ("heterogeneous", "homogeneous", "zero", "none"):
                 cases.append(make_case(rng, conn, syn, 1.3, rng.choice([1, 2, 3]), kind, T, clear=rng.choice([None, 3])))
+    # reconfiguration by assignment after construction
+    cases += reconf_cases(rng, T, reps=1 if not thorough else 3)
     # random extras
     for _ in range(40 if not thorough else 400):
         kind = rng.choice(["heterogeneous", "heterogeneous", "homogeneous", "zero", "none", "offgrid", "beyond"])
@@ -497,13 +555,18 @@ def gen_cases(rng, thorough):
 def key_of(c, d):
     obs = d[2].split(" ")[0]
     twin = ":twin" if "twin" in d[2] else ""
-    return f"C06:{d[0]}:{c['conn']}:{c['syn']}:{c['delaykind']}:{obs}{twin}"
+    rc = ":reconfigured(" + c["reconf"] + ")" if c.get("reconf") else ""
+    return f"C06:{d[0]}:{c['conn']}:{c['syn']}:{c['delaykind']}{rc}:{obs}{twin}"
 
 
 def describe(c, d):
     kind, t, what, where, want, got = d
     side = {"spec": "the time-shift specification", "model": "the code-shaped model"}[kind]
-    return (f"{c['conn']} x {SYN[c['syn']].__name__} (dt={c['dt']}, max delay={c['maxdelay']}, delays {c['delaykind']}) step {t}: "
+    rc = ""
+    if c.get("ctor_dt", c["dt"]) != c["dt"] or c["ctor_maxdelay"] != c["maxdelay"]:
+        rc = (f"; constructed with dt={c.get('ctor_dt', c['dt'])}, max delay={c['ctor_maxdelay']}, then assigned "
+              f"{c.get('dt_via', 'connection')}.dt / synapse.delay and cleared")
+    return (f"{c['conn']} x {SYN[c['syn']].__name__} (dt={c['dt']}, max delay={c['maxdelay']}, delays {c['delaykind']}{rc}) step {t}: "
             f"{what} at {list(where)} is {got}, {side} gives {want}")
 
 
@@ -570,6 +633,7 @@ def explore(ctx) -> Exploration:
         ex.count("dt", str(c["dt"]))
         ex.count("max delay / dt", str(c["maxdelay"] / c["dt"]))
         ex.count("max delay set by", "setter" if c["ctor_maxdelay"] != c["maxdelay"] else "constructor")
+        ex.count("reconfigured after construction", c.get("reconf", "no"))
         ex.count("twin-shift applicable", str(exp is not None))
         ex.count("clear mid-run", str(any(s.get("clear") for s in c["steps"])))
         nout = len(real["steps"][0]["out"][0]) if not isinstance(real["steps"][0]["out"], str) else 1
@@ -601,7 +665,9 @@ def explore(ctx) -> Exploration:
     ex.rule = ("corpus (regression inputs of D14 and of the transposed-selector mutant) + grid: 4 connection kinds x 4 synapse kinds x delay tensors {heterogeneous, homogeneous, all-zero, no delay parameter, off-grid, "
                "single entries beyond max} with dt in {1, 1/2}, max delay in {0..4}*dt (and half steps), bias on/off, batch 1-2, optional clear() "
                "mid-run, max delay set by constructor or by the synapse's setter, tolerance 0 / dt/8, overbound default / None; the same pairs "
-               "with dt = 1.3 (partial (float), 1e-6); random extras with dt in {1/4, 1/2, 1, 2}; every case is stepped on the delayed connection "
+               "with dt = 1.3 (partial (float), 1e-6); reconfiguration stream: every pair built with another dt and/or max delay and then ASSIGNED "
+               "(Connection.dt / Synapse.dt / Synapse.delay; size-preserving 1->7/8, 1->3/4, 1->1.3, 2.5dt<->3dt and size-changing), cleared, "
+               "run against a twin built directly with the final values; random extras with dt in {1/4, 1/2, 1, 2}; every case is stepped on the delayed connection "
                "and on an undelayed twin; non-trivial = at least one input spike; distinct = distinct (pair, dt, weights, delays, spike trains)")
     ex.samples = [{k: v for k, v in cases[ncorpus].items() if k != "steps"}, {k: v for k, v in cases[-1].items() if k != "steps"}]
     ex.extra["streams"] = {"corpus": ncorpus, "generated": len(cases) - ncorpus, "driver_lines": len(lines)}
